@@ -2,14 +2,16 @@ module verifharness
 
 go 1.20
 
-require github.com/superfly/macaroon v0.0.0
+require (
+	github.com/superfly/macaroon v0.0.0
+	github.com/vmihailenco/msgpack/v5 v5.3.5
+)
 
 require (
 	github.com/google/uuid v1.3.0 // indirect
 	github.com/hashicorp/go-cleanhttp v0.5.2 // indirect
 	github.com/hashicorp/golang-lru/v2 v2.0.7 // indirect
 	github.com/sirupsen/logrus v1.9.3 // indirect
-	github.com/vmihailenco/msgpack/v5 v5.3.5 // indirect
 	github.com/vmihailenco/tagparser/v2 v2.0.0 // indirect
 	golang.org/x/crypto v0.12.0 // indirect
 	golang.org/x/exp v0.0.0-20230713183714-613f0c0eb8a1 // indirect
